@@ -16,6 +16,8 @@ def strBytes (s : String) : Bytes := s.toUTF8.toList.map (·.toNat)
 structure Rep where
   log : Log
   writer : Bytes
+  /-- clock ids (= writer public keys) the replica's access controller refuses -/
+  deny : List Bytes := []
   /-- not causally closed any more (bounded join / limited load, or merged from such a replica) -/
   partialLog : Bool := false
   /-- tie history and the replica came out of a loader: the relative order of tied entries then depends on
@@ -24,6 +26,7 @@ structure Rep where
   /-- last implementation observation: entries (sorted by alias), values -/
   lastE : List String := []
   lastV : List String := []
+  lastH : List String := []
 deriving Inhabited
 
 structure St where
@@ -31,6 +34,7 @@ structure St where
   store : List Entry := []            -- every entry ever defined (the block store)
   reps : Array (Option Rep) := #[]
   shared : Bool := false
+  acl : Bool := false
   sort : SortKind := .lww
   lineNo : Nat := 0
   hist : String := ""
@@ -110,26 +114,34 @@ def handle (s : St) (line : String) : St :=
   match t with
   | "H" :: idx :: _seed :: rest =>
     let shared := rest.any (· == "shared=true")
+    let acl := rest.any (· == "acl=true")
     let sk := match rest.find? (·.startsWith "sort=") with
       | some x => parseSort (x.drop 5).toString
       | none => .lww
-    { s with uni := {}, store := [], reps := #[], shared := shared, sort := sk, hist := idx, inExchange := false }
+    { s with uni := {}, store := [], reps := #[], shared := shared, acl := acl, sort := sk, hist := idx, inExchange := false }
   | ["U", a, cidS] =>
     { s with uni := s.uni.insert a { hash := strBytes cidS, logId := [], next := [], refs := [], clock := { id := [], time := 0 } } }
   | ["E", a, cidS, logId, clk, time, nx, rf] =>
     let e : Entry := { hash := strBytes cidS, logId := strBytes logId, next := s.hs (parseList nx),
                        refs := s.hs (parseList rf), clock := { id := strBytes clk, time := toInt! time } }
     { s with uni := s.uni.insert a e, store := s.store ++ [e] }
-  | ["N", r, logId, clk, sk] =>
+  | ["N", r, logId, clk, sk, deny] =>
     let l : Log := { id := strBytes logId, entries := [], heads := [], nextIdx := [],
                      clock := { id := strBytes clk, time := 0 }, sortFn := parseSort sk }
-    s.setRep r.toNat! { log := l, writer := strBytes clk }
+    s.setRep r.toNat! { log := l, writer := strBytes clk, deny := (parseList deny).map strBytes }
   | ["A", r, pc, a] =>
     let s := { s with lastOp := "append" }
     match s.rep? r.toNat! with
     | none => s.diff "append-unknown-replica" r ""
     | some rep =>
       if a == "!err" then s.diff "append" "ok" "err" else
+      if a == "!denied" then
+        -- C06: a denied append leaves entries and heads unchanged (the clock has already advanced)
+        let s := s.count "cmp:append.denied"
+        let s := if rep.deny.contains rep.log.clock.id then s else s.diff "append.denied" "ok" "denied"
+        s.setRep r.toNat! { rep with log := { rep.log with clock := (appendPlan rep.log (toInt! pc)).clock } }
+      else
+      let s := if rep.deny.contains rep.log.clock.id then s.diff "append.denied" "denied" "ok" else s
       let ie := s.ent a
       let plan := appendPlan rep.log (toInt! pc)
       let s := s.count "cmp:append"
@@ -156,8 +168,8 @@ def handle (s : St) (line : String) : St :=
       if res == "panic" then s.diff "join" "no-panic" "panic" |>.spec "C16" "joinNoPanic" false s!"join {r} {r2} {size}" else
       if r == r2 then (if res == "ok" then s else s.diff "join.self" "ok" res) else
       let sz := toInt! size
-      match join a.log b.log.id b.log.entries b.log.heads sz with
-      | .err => if res == "err" then s else s.diff "join.result" "err" res
+      match join a.log b.log.id b.log.entries b.log.heads sz (fun e => !a.deny.contains e.clock.id) with
+      | .err => if res == "err" then s.count "cmp:join.rejected" else s.diff "join.result" "err" res
       | .ok l' =>
         let s := if res == "ok" then s else s.diff "join.result" "ok" res
         let total := (omFromList (a.log.entries ++ b.log.entries)).length
@@ -321,14 +333,15 @@ def handle (s : St) (line : String) : St :=
             s.spec "C04" "appendOk" (appendOk pE pH wid pc e H) s!"replica {r} pc {pc}"
           else s
         | none => s
-      s.setRep r.toNat! { rep with lastE := iE, lastV := iV }
+      s.setRep r.toNat! { rep with lastE := iE, lastV := iV, lastH := sortStrs (parseList raw) }
   | ["X", "begin"] => { s with inExchange := true, lastOp := "exchange" }
   | ["X", "end"] =>
     -- C01: after a complete exchange all replicas of one id agree
-    let reps := s.reps.toList.filterMap id
+    let reps := if s.acl then [] else s.reps.toList.filterMap id   -- with access control replicas legitimately differ
     let s := reps.foldl (fun (s : St) a => reps.foldl (fun (s : St) b =>
       if a.log.id == b.log.id && !a.partialLog && !b.partialLog then
         let s := s.spec "C01" "sameEntries" (a.lastE == b.lastE) ""
+        let s := s.spec "C01" "sameHeads" (a.lastH == b.lastH) ""
         let E := s.ents a.lastE
         if strictTotalOn a.log.sortFn E && a.log.sortFn == b.log.sortFn && a.log.sortFn != .fww then s.spec "C01" "sameValues" (a.lastV == b.lastV) "" else s
       else s) s) s
